@@ -131,7 +131,10 @@ class ServerBase(object):
             ctx.out_object = (None,)
 
         elif isinstance(ctx.out_object, Ignored):
-            ctx.out_object = ()
+            # only methods with several return values get here: one empty
+            # slot for each, the serializers index them.
+            ctx.out_object = (None,) * \
+                                  len(ctx.descriptor.out_message._type_info)
 
     def convert_pull_to_push(self, ctx, gen):
         oobj, = ctx.out_object
